@@ -10,6 +10,7 @@ ASSUMPTIONS = [
     "contract of rng.FixedInt tested by the driver (docs: same seed and unlockAll => implicit patterns do not change; rng.go: same hint => same value, the cache only accelerates): a pure function of (n, hint) = 31 bits of sha256(hint) mod n, independent of earlier calls; checked on every oracle-table draw (same hint asked with 16 different n, ascending or descending), by evaluating inputs that share hints (unlockAll true/false, explicit/implicit minLen or maxLen) alone and in both orders in fresh child processes and in-process, and by re-evaluating a sample of cases in a fresh process each",
     "math/rand draws (nonce rewrite length, choice among several fixed prefixes) are not observable: the runner accepts a set of observed lengths iff every one is explained by some draw in range",
     "bounds that are literals inside config.go functions (ranges of generated values, validation limits) are recovered behaviourally by dumpconsts (largest accepted value; extreme generated values over seeds 0..4095, measured in a fresh child process per unlockAll value so that they do not depend on evaluation history) and enter the proofs as regenerated constants",
+    "TCP fragmentation (writeWithPossibleFragment): int(math.Sqrt(float64(n))) is modelled by Z.sqrt; agreement is tested for every n in 0..70000 (a stream write is < 66.3 kB) and at k*k-1, k*k, k*k+1 up to 2^31 (Q cases); the math/rand draws are an oracle list and the runner accepts the recorded conn.Write sizes iff some draws explain them; sleep durations are not observed (only: no measurable sleep when none is configured) - their range is a theorem about the model's frag_sleep",
     "int32 fields are modelled as unbounded Z (every value the driver uses is an int32); enum fields as Z",
     "Encode/Decode round trip is a property of google.golang.org/protobuf and encoding/base64: tested on every valid case, not proved",
     "besides the e2e wire driver, the functions that derive wire behaviour from a pattern (nonceRewriteLen, newNonce apply rule, maxPaddingSizeWithTrafficPattern, lowEntropySendConfig) are compared with the model through hooks",
